@@ -78,6 +78,43 @@ func runC09(e *Env) error {
 			}
 		}
 	}
+	// the same equations when the sequence is a string (counted in characters, not bytes) or a map (in key order)
+	for n := 0; n <= maxLen && !r.Full(); n++ {
+		chars := []string{"a", "é", "世", "😀", "z", "ß"}
+		var str strings.Builder
+		m := map[string]interface{}{}
+		var wantS, wantM strings.Builder
+		for i := 0; i < n; i++ {
+			c := chars[i%len(chars)]
+			str.WriteString(c)
+			fmt.Fprintf(&wantS, "%d,%d,%d,%d,%t,%t,%d,%s;", i+1, i, n-i, n-i-1, i == 0, i == n-1, n, c)
+			k := fmt.Sprintf("k%02d", i)
+			m[k] = i * 3
+			fmt.Fprintf(&wantM, "%d,%d,%d,%d,%t,%t,%d,%d;", i+1, i, n-i, n-i-1, i == 0, i == n-1, n, i*3)
+		}
+		if n == 0 {
+			wantS.WriteString("E")
+			wantM.WriteString("E")
+		}
+		tpl := "{% for v in xs %}{{ loop.index }},{{ loop.index0 }},{{ loop.revindex }},{{ loop.revindex0 }},{{ loop.first }},{{ loop.last }},{{ loop.length }},{{ v }};{% else %}E{% endfor %}"
+		for _, variant := range []struct {
+			name string
+			val  any
+			want string
+		}{{"string", str.String(), wantS.String()}, {"map", m, wantM.String()}} {
+			c := &Case{Templates: map[string]string{"main": tpl}, Main: "main", Ctx: map[string]any{"xs": variant.val}, FailAt: -1}
+			im, _, _, err := compareCase(e, c, "render-model-c09", "correspondence render on loop metadata over strings and maps")
+			if err != nil {
+				return err
+			}
+			r.Seen(fmt.Sprintf("meta:%s:%d", variant.name, n), n > 0)
+			if im.Class != "" || im.Out != variant.want {
+				r.Violate(Violation{Key: "loop-metadata", What: fmt.Sprintf("loop metadata wrong for a %s of length %d: %q, expected %q", variant.name, n, truncate(im.Out, 120), truncate(variant.want, 120)),
+					Broken: "theorem C09_loop_meta no longer describes the code (implementation-only oracle)",
+					Replay: map[string]any{"kind": "src", "src": tpl, "n": n, "want": variant.want, "got": im.Out, "class": im.Class}})
+			}
+		}
+	}
 	// differential
 	n := e.N(1500, 60000)
 	for i := 0; i < n && !r.Full(); i++ {
